@@ -507,7 +507,8 @@ pub fn check_mut(rep: &mut Report, script: &[String], rng: &mut Rng) {
             let r2: Result<(), String> = match guarded(std::panic::AssertUnwindSafe(|| -> Result<(), StamError> {
                 for row in &rows { match row.first() {
                     Some(Item::R(h)) => direct.store.remove(TextResourceHandle::new(*h))?,
-                    Some(Item::A(h)) => direct.store.remove(AnnotationHandle::new(*h))?,
+                    // (an earlier removal may have taken this one along: annotations on a removed annotation go with it)
+                    Some(Item::A(h)) => if direct.store.annotation(AnnotationHandle::new(*h)).is_some() { direct.store.remove(AnnotationHandle::new(*h))? },
                     Some(Item::S(h)) => direct.store.remove(AnnotationDataSetHandle::new(*h))?,
                     Some(Item::K(s, h)) => direct.store.remove_key(AnnotationDataSetHandle::new(*s), DataKeyHandle::new(*h), true)?,
                     Some(Item::D(s, h)) => direct.store.remove_data(AnnotationDataSetHandle::new(*s), AnnotationDataHandle::new(*h), true)?,
@@ -570,6 +571,23 @@ pub fn check_mut(rep: &mut Report, script: &[String], rng: &mut Rng) {
             })) { Ok(Ok(())) => Ok(()), Ok(Err(e)) => Err(format!("{}", e)), Err(p) => Err(format!("PANIC {}", p)) };
             compare_mut(rep, "add", sel.rtype, &ctx(&text), r1.map(|_| ()), r2, &via_query.store, &direct.store);
         }
+    }
+    // every annotation deleted by one query: annotations on annotations are among the results next to their targets, so
+    // removing an earlier result takes later results along
+    {
+        let text = "DELETE ANNOTATION ?x { SELECT ANNOTATION ?x }";
+        let (mut via_query, mut direct) = (Exec::new(), Exec::new());
+        for l in script { via_query.exec(l); direct.exec(l); }
+        let handles: Vec<AnnotationHandle> = direct.store.annotations().map(|a| a.handle()).collect();
+        let nested = direct.store.annotations().any(|a| a.annotations_in_targets(AnnotationDepth::One).next().is_some());
+        rep.count(if nested { "query2:delete-all:with-annotations-on-annotations" } else { "query2:delete-all:flat" });
+        rep.case(Some(&format!("{}|{}", script.join("|"), text)));
+        let r1 = run_mut(&mut via_query.store, text);
+        let r2: Result<(), String> = match guarded(std::panic::AssertUnwindSafe(|| -> Result<(), StamError> {
+            for h in &handles { if direct.store.annotation(*h).is_some() { direct.store.remove(*h)?; } }
+            Ok(())
+        })) { Ok(Ok(())) => Ok(()), Ok(Err(e)) => Err(format!("{}", e)), Err(p) => Err(format!("PANIC {}", p)) };
+        compare_mut(rep, "delete", "ANNOTATION-all", &ctx(text), r1.map(|_| ()), r2, &via_query.store, &direct.store);
     }
 }
 
